@@ -341,12 +341,17 @@ def run_impl(ctx, cases, lines):
         for ch, got in zip(chunks, ex.map(batch, chunks)):
             for i, g in zip(ch, got):
                 res[i] = g
+    hung = [0]   # children that hung so far; after 3 the rest is not started (bounds the run's duration)
+
     if glob:
         def child(i):
+            if hung[0] >= 3:
+                return "xskipped"
             try:
                 p = subprocess.run([vh, "facade"], input=(lines[i] + "\n").encode(), stdout=subprocess.PIPE,
                                    stderr=subprocess.PIPE, timeout=60, env=vc.ENV)
             except subprocess.TimeoutExpired:
+                hung[0] += 1
                 return "xhang"
             o = p.stdout.decode("utf-8", "replace").strip().split("\n")
             return o[-1] if o and o[-1] else "xabort"
@@ -361,6 +366,8 @@ def run_impl(ctx, cases, lines):
 
         def one(j):
             i = live[j]
+            if hung[0] >= 3:
+                return "xskipped"
             try:
                 mv = vc.parse(exp[j])
                 want = [[p[3], p[4]] for p in mv[1]]
@@ -371,6 +378,7 @@ def run_impl(ctx, cases, lines):
                 p = subprocess.run([vh, "live"], input=data, stdout=subprocess.PIPE, stderr=subprocess.PIPE,
                                    timeout=120, env=vc.ENV)
             except subprocess.TimeoutExpired:
+                hung[0] += 1
                 return "xhang"
             o = p.stdout.decode("utf-8", "replace").strip().split("\n")
             return o[-1] if o and o[-1] else "xabort"
